@@ -143,7 +143,8 @@ class TlcResult:
         return out
 
     def tail(self, n=40):
-        return "\n".join(l for l in self.lines if not l.startswith('<<"'))[-4000:]
+        skip = ("Parsing file", "Semantic processing", "Linting of", '<<"')
+        return "\n".join(l for l in self.lines if not l.startswith(skip))[-4000:]
 
 
 def parse_print_line(line, tag):
@@ -169,7 +170,7 @@ def parse_prints(lines, tag):
     return out
 
 
-def run_tlc(module, cfg, name, workers=8, timeout=900, cwd=SPEC, env=None, heap=None, java="", **kw):
+def run_tlc(module, cfg, name, workers=8, timeout=900, cwd=SPEC, env=None, heap=None, java="", accept=(0, 12, 13), **kw):
     """Runs TLC; returns TlcResult. Timeout or crash (rc not in {0, 12, 13}) is a tool error."""
     metadir = os.path.join(BUILD, "tlc", name)
     shutil.rmtree(metadir, ignore_errors=True)
@@ -186,7 +187,7 @@ def run_tlc(module, cfg, name, workers=8, timeout=900, cwd=SPEC, env=None, heap=
     res.wall = time.time() - t0
     res.cmd = " ".join(cmd)
     shutil.rmtree(metadir, ignore_errors=True)
-    if r.returncode not in (0, 12, 13):
+    if r.returncode not in accept:
         log(res.tail())
         tool_error("TLC failed (rc=%d) on %s/%s" % (r.returncode, module, cfg))
     return res
